@@ -505,3 +505,47 @@ def c11_r9(ctx):
                       (": bound by no constructor that building a %s runs (or by nothing at all)" % cls.name if bad else ""), loc=cls.loc)
     if n < 30:
         raise AnalysisError("only %d matcher classes" % n)
+
+
+def _pure_delegation(f, name):
+    """the method only hands the call to the wrapped child: `return self.child.<name>(...)`"""
+    body = [st for st in f.node.body if not _is_doc(st)]
+    if len(body) != 1 or not isinstance(body[0], (ast.Return, ast.Expr)):
+        return False
+    v = body[0].value
+    return isinstance(v, ast.Call) and isinstance(v.func, ast.Attribute) and v.func.attr == name \
+        and norm.canon(v.func.value) == "self.child"
+
+
+def _is_doc(st):
+    return isinstance(st, ast.Expr) and isinstance(st.value, ast.Constant) and isinstance(st.value.value, str)
+
+
+@rule("C11", "R10", "K10", "a wrapper that filters in its own next()/skip_to() does not inherit the child's unfiltered all_ids()",
+      min_instances=12, also=("C01",),
+      clause="For every wrapping matcher class K whose resolved all_ids() merely returns self.child.all_ids(): the resolved next() and "
+             "skip_to() of K are pure delegations to the child as well. A wrapper that realigns after moving the child (span filters, "
+             "id filters, inversion) and loses its own all_ids() override would hand out the ids of the unfiltered child through "
+             "every access path that uses all_ids() (unscored search, docs_for_query, filters).")
+def c11_r10(ctx):
+    prog = ctx.prog
+    W = prog.cls("matching.wrappers.WrappingMatcher")
+    n = 0
+    for K in prog.subclasses(W):
+        ai = prog.lookup(K, "all_ids")
+        if ai is None:
+            raise AnalysisError("%s resolves no all_ids()" % K.qualname)
+        n += 1
+        if not _pure_delegation(ai, "all_ids"):
+            ctx.ob(K, True, "all_ids() of %s is its own (%s), not the child's" % (K.name, ai.short))
+            continue
+        bad = []
+        for m in ("next", "skip_to"):
+            f = prog.lookup(K, m)
+            if f is not None and not _pure_delegation(f, m):
+                bad.append(f.short)
+        ctx.ob(K, not bad, "%s hands out the child's all_ids() only because it moves exactly like the child" % K.name,
+               detail=("all_ids() resolves to %s (the unfiltered ids of the child) although %s do(es) more than move the child"
+                       % (ai.short, ", ".join(bad))) if bad else "", loc=K.loc)
+    if n < 12:
+        raise AnalysisError("only %d wrapping matcher classes" % n)
